@@ -288,3 +288,35 @@ func writeJSON(path string, v any) error {
 	}
 	return os.WriteFile(path, b, 0o644)
 }
+
+// snapCopy copies src element by element. The harness's snapshot helpers are //go:norace, but
+// append and copy go through the runtime's slice routines, which report to the race detector on
+// behalf of any caller; in a run that did not end normally (step limit, deadlock) nothing orders
+// the tasks' last writes before the scheduler goroutine's snapshot, and the copy would be reported
+// as a race of the harness with itself.
+//
+//go:norace
+func snapCopy[T any](src []T) []T {
+	out := make([]T, len(src))
+	for i := range src {
+		out[i] = src[i]
+	}
+	return out
+}
+
+//go:norace
+func snapFlatten[T any](src [][]T) []T {
+	n := 0
+	for _, r := range src {
+		n += len(r)
+	}
+	out := make([]T, n)
+	k := 0
+	for _, r := range src {
+		for i := range r {
+			out[k] = r[i]
+			k++
+		}
+	}
+	return out
+}
